@@ -162,6 +162,108 @@ theorem intermediate_stable_until_renewal (evs0 : List Event) (hm0 : Monotone 0 
   cases hm0' : m0.inter
   simp_all
 
+/-! ### renewal at run time (the 10-minute maintenance pass of a running process)
+
+FULL STATEMENT (what the property asks for once the process keeps running between start-ups):
+    ∀ steps, StepsMonotone 0 steps → ∀ c ≥ lastStepTime, the uninterrupted start-up after
+    `runSteps steps World.empty` returns a consistent chain.
+It is FALSE for the tree as it is: `Witness.recovery_with_runtime_renewal_full_fails`.  What is
+true, and proved below, is the statement restricted to histories in which every maintenance pass
+starts with the process's in-memory intermediate certificate equal to the stored one
+(`SyncedAtTicks`, a decidable predicate evaluated along the model's own run).  That is always so
+right after an uninterrupted start-up (`synced_after_uninterrupted_startup`) and it is lost
+exactly when a renewal's certificate write reports an error AFTER having taken effect: the error
+is logged, memory keeps the old certificate, storage has the new one. -/
+
+def WInv (t : Nat) (w : World) : Prop :=
+  InvAt t w.disk.store ∧ ∀ m life, w.proc = some (m, life) → RootHeld t m w.disk.store
+
+theorem Res.Holds.mem_ok {Q : Mem → Store → Nat → Prop} {E : Store → Nat → Prop} {C : Store → Prop}
+    {r : Res Mem} {m : Mem} (h : r.Holds Q E C) (hm : r.mem? = some m) : Q m r.sys.store r.sys.fresh := by
+  cases r with
+  | ok a y => simp only [Res.mem?, Option.some.injEq] at hm; subst hm; exact h
+  | err e y => cases hm
+  | crash y => cases hm
+
+/-- **a maintenance pass interrupted in any way keeps the store recoverable**, provided the
+    process's in-memory intermediate certificate is the stored one -/
+theorem tick_keeps_invariant (now : Nat) (f : Option Fault) (life : Nat) (m : Mem) (d : Disk)
+    (h : RootHeld now m d.store) (hs : d.store .intCrt = some m.inter.crt) :
+    (tickRun codeOrder now f life m d).Holds (fun m' s' _ => RootHeld now m' s') (fun s' _ => InvAt now s') (InvAt now) :=
+  wp_sound f (renew .keyFirst ⟨now, life⟩ m) _ (boot d)
+    (phase_renew' ⟨now, life⟩ m d.store d.fresh h (fun hd i r ra hh => by
+      rw [hs, Pair.crt] at hh; cases hh; exact hd))
+
+theorem WInv.step (st : Step) (w : World) (t : Nat) (h : WInv t w) (ht : t ≤ st.now)
+    (hs : ∀ n f, st = .tick n f → w.synced) : WInv st.now (w.step codeOrder st) := by
+  cases st with
+  | start e =>
+    have hh := wp_sound e.fault (startup .keyFirst e.cfg) _ (boot w.disk)
+      (wp_startup_inv e.cfg w.disk.store w.disk.fresh (h.1.mono ht))
+    refine ⟨hh.store_all (fun _ _ _ h => h.1) (fun _ _ h => h) (fun _ h => h), ?_⟩
+    intro m life hp
+    simp only [World.step, Option.map_eq_some_iff, Prod.mk.injEq] at hp
+    obtain ⟨m', hm', rfl, _⟩ := hp
+    exact hh.mem_ok hm'
+  | tick n f =>
+    have hsy := hs n f rfl
+    simp only [World.step]
+    cases hp : w.proc with
+    | none => exact ⟨h.1.mono ht, fun m life hp' => by rw [hp] at hp'; cases hp'⟩
+    | some ml =>
+      obtain ⟨m, life⟩ := ml
+      simp only [World.synced, hp] at hsy
+      have hh := tick_keeps_invariant n f life m w.disk ((h.2 m life hp).mono ht) hsy
+      refine ⟨hh.store_all (fun _ _ _ h => h.1) (fun _ _ h => h) (fun _ h => h), ?_⟩
+      intro m' life' hp'
+      simp only [Option.map_eq_some_iff, Prod.mk.injEq] at hp'
+      obtain ⟨m'', hm'', rfl, _⟩ := hp'
+      exact hh.mem_ok hm''
+
+/-- **every history of interrupted start-ups AND interrupted maintenance passes leaves a
+    recoverable store**, as long as every pass starts synced -/
+theorem reachable_invariant_with_ticks : ∀ (sts : List Step) (t : Nat) (w : World), WInv t w →
+    StepsMonotone t sts → SyncedAtTicks codeOrder sts w → WInv (lastStepTime t sts) (runSteps codeOrder sts w)
+  | [], _, _, h, _, _ => h
+  | .start e :: sts, t, w, h, hm, hs =>
+    reachable_invariant_with_ticks sts e.cfg.now _ (h.step (.start e) w t hm.1 (fun _ _ hh => by cases hh)) hm.2 hs
+  | .tick n f :: sts, t, w, h, hm, hs =>
+    reachable_invariant_with_ticks sts n _ (h.step (.tick n f) w t hm.1 (fun _ _ _ => hs.1)) hm.2 hs.2
+
+/-- **recovery with renewal at run time (partial).**  After any history of start-ups and
+    maintenance passes, each interrupted at any storage operation in any of the four ways, in
+    which every pass starts synced, the next uninterrupted start-up succeeds with a consistent
+    chain that is exactly what the storage then contains. -/
+theorem recovery_with_runtime_renewal_partial (sts : List Step) (hm : StepsMonotone 0 sts)
+    (hs : SyncedAtTicks codeOrder sts World.empty) (c : Cfg) (hc : lastStepTime 0 sts ≤ c.now) :
+    ∃ m y, (Event.mk c none).run codeOrder (runSteps codeOrder sts World.empty).disk = .ok m y ∧
+      m.Consistent ∧ Complete y.store m := by
+  have hw : WInv 0 World.empty := ⟨InvAt.empty 0, fun m life hp => by cases hp⟩
+  have hinv := (reachable_invariant_with_ticks sts 0 World.empty hw hm hs).1.mono hc
+  have := wpn_sound (startup .keyFirst c) _ (boot (runSteps codeOrder sts World.empty).disk)
+    (wpn_startup c _ (runSteps codeOrder sts World.empty).disk.fresh hinv)
+  show ∃ m y, exec none (startup .keyFirst c) (boot (runSteps codeOrder sts World.empty).disk) = .ok m y ∧ _
+  cases hr : exec none (startup .keyFirst c) (boot (runSteps codeOrder sts World.empty).disk) with
+  | ok m y => rw [hr] at this; exact ⟨m, y, rfl, this.2.1, this.1⟩
+  | err e y => rw [hr] at this; exact this.elim
+  | crash y => rw [hr] at this; exact this.elim
+
+/-- the exclusion is met in the ordinary case: a process left by an UNINTERRUPTED start-up is
+    synced (so its first maintenance pass, interrupted however, is covered) -/
+theorem synced_after_uninterrupted_startup (sts : List Step) (hm : StepsMonotone 0 sts)
+    (hs : SyncedAtTicks codeOrder sts World.empty) (c : Cfg) (hc : lastStepTime 0 sts ≤ c.now) :
+    ((runSteps codeOrder sts World.empty).step codeOrder (.start ⟨c, none⟩)).synced := by
+  obtain ⟨m, y, hr, _, hcomp⟩ := recovery_with_runtime_renewal_partial sts hm hs c hc
+  simp only [World.step, World.synced, hr, Res.mem?, Option.map_some, Res.disk, Res.sys]
+  exact hcomp.2.2.1
+
+/-- a maintenance pass renews (lifetime 0: always due), is killed after the key write, and the
+    next start-up still ends consistent: the pass started synced -/
+example : SyncedAtTicks codeOrder [.start ⟨⟨1, 0⟩, none⟩, .tick 2 (some ⟨3, .crashAfter⟩)] World.empty ∧
+    StepsMonotone 0 [.start ⟨⟨1, 0⟩, none⟩, .tick 2 (some ⟨3, .crashAfter⟩)] ∧
+    (runSteps codeOrder [.start ⟨⟨1, 0⟩, none⟩, .tick 2 (some ⟨3, .crashAfter⟩)] World.empty).disk.store .intKey
+      = some (.key 3) := by decide
+
 /-! ### non-vacuity (kernel-evaluated) -/
 
 /-- the start-up of the current code on an empty storage performs exactly this operation
